@@ -1105,6 +1105,72 @@ pub fn m11(level: u8) -> Vec<Model> {
     out
 }
 
+/// M12: the solver's constant literals (`get_true_literal` / `get_false_literal`) in clauses,
+/// conjunctions, Boolean linear constraints, as reification literals and as 0-1 integer
+/// variables, next to ordinary variables.
+pub fn m12(level: u8) -> Vec<Model> {
+    // x0: 0..2, x1: {0,2,3}, x2: literal, x3: the constant literal
+    let vars = vec![VarDecl::interval(0, 2), VarDecl::from_values(&[0, 2, 3]), VarDecl::lit(), VarDecl::const_true()];
+    let v = View::id;
+    let (t, f) = (Lit::p(3), Lit::n(3));
+    let (b, nb) = (Lit::p(2), Lit::n(2));
+    let inner: Vec<Con> = vec![
+        Con::LinLe(vec![v(0), v(1)], 2),
+        Con::BinNe(v(0), v(1)),
+        Con::LinNe(vec![v(0), View::new(1, -1, 0)], 0),
+        Con::BinLe(v(1), v(0)),
+        Con::LinEq(vec![v(0), v(1)], 3),
+    ];
+    let mut pool: Vec<Con> = vec![];
+    for c in &inner {
+        for l in [t, f] {
+            pool.push(Con::Implied(l, Box::new(c.clone())));
+            pool.push(Con::Reified(l, Box::new(c.clone())));
+        }
+    }
+    pool.extend([
+        Con::LitClause(vec![t, b]),
+        Con::LitClause(vec![f, b]),
+        Con::LitClause(vec![f, nb]),
+        Con::LitClause(vec![f]),
+        Con::LitClause(vec![t]),
+        Con::LitClause(vec![f, f]),
+        Con::LitConj(vec![t, b]),
+        Con::LitConj(vec![nb, t]),
+        Con::LitConj(vec![f, b]),
+        Con::BoolLinLe(vec![2, 1], vec![t, b], 2),
+        Con::BoolLinLe(vec![1, 1], vec![f, b], 0),
+        Con::BoolLinLe(vec![-1, 1], vec![t, nb], -1),
+        Con::BoolLinEq(vec![1, 1], vec![t, b], 0),
+        Con::BoolLinEq(vec![2, 1], vec![f, nb], 0),
+        Con::BoolLinEq(vec![1, 2], vec![b, t], 1),
+        // the constant literal as an integer variable
+        Con::LinLe(vec![View::new(3, 2, 0), v(0)], 3),
+        Con::LinLe(vec![View::new(3, 1, 1), View::new(2, 1, -1)], 1),
+        Con::BinNe(View::new(3, 1, 0), View::new(2, 1, 0)),
+        Con::BinEq(View::new(3, -1, 2), View::new(2, 1, 1)),
+        Con::Max(vec![v(3), v(2)], v(0)),
+        Con::Times(v(3), v(0), v(1)),
+        Con::Element { index: v(3), array: vec![v(0), v(1)], rhs: v(0) },
+        Con::AllDiff(vec![v(3), v(0), v(1)]),
+    ]);
+    let mut out = vec![];
+    for c in &pool {
+        out.push(Model::new(vars.clone(), vec![c.clone()]));
+    }
+    let stride = if level >= 1 { 1 } else { 5 };
+    let mut k = 0;
+    for (i, a) in pool.iter().enumerate() {
+        for c in pool.iter().skip(i + 1) {
+            k += 1;
+            if k % stride == 0 {
+                out.push(Model::new(vars.clone(), vec![a.clone(), c.clone()]));
+            }
+        }
+    }
+    out
+}
+
 /// Is the model non-trivial: neither every assignment is a solution nor none.
 pub fn nontrivial(model: &Model, num_solutions: usize) -> bool {
     num_solutions > 0 && (num_solutions as u64) < model.space_size()
